@@ -13,7 +13,7 @@
 // VERIF_JOBS workers which expand disjoint slices of the frontier and stream candidates back; a worker that dies (ASan abort,
 // assert, signal, timeout) turns into a `fatal` violation carrying the exact in-flight history and is restarted behind it.
 //
-// CXXFLAGS: -fno-access-control
+// CXXFLAGS: -fno-access-control -O2
 #include <cstdint>
 #include <cstdio>
 #include <cstdlib>
@@ -246,15 +246,25 @@ struct MapModel
 };
 
 // raw walk of a XalanList without calling begin()/end() (which allocate the sentinel lazily)
-template <class L>
-static void listNodes(const L& l, std::vector<const typename L::Node*>& out, bool& broken)
+template <class T>
+struct SmallVec     // no heap traffic on the hot path
+{
+    T d[40]; size_t n = 0;
+    void push_back(const T& x) { if (n < 40) d[n++] = x; }
+    size_t size() const { return n; }
+    const T* begin() const { return d; }
+    const T* end() const { return d + n; }
+    const T& operator[](size_t i) const { return d[i]; }
+};
+template <class L, class Out>
+static void listNodes(const L& l, Out& out, bool& broken)
 {
     broken = false;
     if (l.m_listHead == 0) return;
     size_t guard = 0;
     for (const typename L::Node* n = l.m_listHead->next; n != l.m_listHead; n = n->next)
     {
-        if (n == 0 || ++guard > 10000) { broken = true; return; }
+        if (n == 0 || ++guard > 39) { broken = true; return; }
         out.push_back(n);
     }
 }
@@ -273,7 +283,7 @@ struct MapShape
     // canonical shape; also verifies the structural invariants when f != 0
     static void shape(const M& m, const MapModel& mod, std::string& o, Fail* f, const char* which)
     {
-        std::vector<const typename M::EntryListType::Node*> live, freeN;
+        SmallVec<const typename M::EntryListType::Node*> live, freeN;
         bool b1, b2;
         listNodes(m.m_entries, live, b1);
         listNodes(m.m_freeEntries, freeN, b2);
@@ -322,7 +332,7 @@ struct MapShape
         CHECK(f, m.size() == mod.ref.size(), "size", w + ": size() " + istr(m.size()) + " model " + istr(mod.ref.size()));
         CHECK(f, m.empty() == mod.ref.empty(), "size", w + ": empty() disagrees");
         if (f.bad) return;
-        std::vector<std::pair<int, int> > got;
+        SmallVec<std::pair<int, int> > got;
         size_t guard = 0;
         for (typename M::iterator i = m.begin(); i != m.end(); ++i)
         {
@@ -341,7 +351,7 @@ struct MapShape
             if (!sameSet || !sameOrder)
             {
                 std::string gs, ms;
-                for (auto& p : got) gs += (p.first < 0 ? std::string("?") : Codec::show(p.first)) + "=" + istr(p.second) + " ";
+                for (size_t q = 0; q < got.size(); ++q) gs += (got[q].first < 0 ? std::string("?") : Codec::show(got[q].first)) + "=" + istr(got[q].second) + " ";
                 for (int k : mod.order) ms += Codec::show(k) + "=" + istr(mod.ref.find(k)->second) + " ";
                 CHECK(f, sameSet, "contents", w + ": iteration yields {" + gs + "} model {" + ms + "}");
                 CHECK(f, sameOrder, "contents", w + ": iteration order {" + gs + "} differs from insertion order {" + ms + "}");
@@ -368,7 +378,7 @@ struct MapShape
             const M& cm = m;
             CHECK(f, (cm.find(Codec::key(k)) != cm.end()) == mod.has(k), "find", w + ": const find(" + Codec::show(k) + ") disagrees");
         }
-        std::string dummy;
+        std::string dummy; dummy.reserve(96);
         shape(m, mod, dummy, &f, which);
     }
     static size_t& nkeys() { static size_t n = 4; return n; }
@@ -477,6 +487,7 @@ struct MapSys : Sys
     }
     void key(std::string& o) const
     {
+        o.reserve(160);
         a.text(o); o += '/'; MapShape<Codec>::shape(*A, a, o, 0, "A"); o += "//";
         b.text(o); o += '/'; MapShape<Codec>::shape(*B, b, o, 0, "B");
     }
@@ -774,7 +785,7 @@ struct VecSys : Sys
         case V_ASSIGN_SELF: *A = *A; events |= EV_SELF; break;
         }
         if (d.code != V_SWAP && (A->m_allocation != cap0 || A->m_data != data0) && cap0 != 0) events |= EV_REALLOC;
-        if (d.code != V_SWAP && A->m_allocation != cap0) events |= EV_GROW;
+        if (d.code != V_SWAP && cap0 != 0 && A->m_allocation > cap0) events |= EV_GROW;
     }
     void key(std::string& o) const
     {
@@ -1301,7 +1312,7 @@ struct StrSys : Sys
         }
         (void)nb;
         if (d.code != X_SWAP && cap0 != 0 && (A->m_data.m_allocation != cap0 || A->m_data.m_data != data0)) events |= EV_REALLOC;
-        if (d.code != X_SWAP && A->m_data.m_allocation != cap0) events |= EV_GROW;
+        if (d.code != X_SWAP && cap0 != 0 && A->m_data.m_allocation > cap0) events |= EV_GROW;
     }
     void key(std::string& o) const
     {
@@ -1910,13 +1921,13 @@ static const Container g_containers[] = {
     { "map_int_b", 5, 7, &MapSys<IntCodec, 1, 3>::make, "XalanMap<int,int> x2, colliding hash, minBuckets 1, eraseThreshold 3, 4 keys" },
     { "map_str", 5, 6, &MapSys<StrCodec, 2, 2>::make, "XalanMap<XalanDOMString,int> x2, minBuckets 2, eraseThreshold 2, keys '', 'a', 'b', 'ab'" },
     { "vector", 5, 7, &VecSys::make, "XalanVector<Tracked> x2, values 0..2, positions begin/mid/end" },
-    { "list", 5, 7, &ListSys::make, "XalanList<Tracked> x2, values 0..2, positions begin/mid/end" },
-    { "deque", 6, 8, &DequeSys::make, "XalanDeque<Tracked> block size 2 (A empty, B built with initialSize 3)" },
-    { "string", 4, 5, &StrSys::make, "XalanDOMString x2 against std::u16string, chars a, b, unpaired high surrogate; positions begin/mid/end; counts 0,1,2" },
+    { "list", 7, 10, &ListSys::make, "XalanList<Tracked> x2, values 0..2, positions begin/mid/end" },
+    { "deque", 7, 9, &DequeSys::make, "XalanDeque<Tracked> block size 2 (A empty, B built with initialSize 3)" },
+    { "string", 5, 6, &StrSys::make, "XalanDOMString x2 against std::u16string, chars a, b, unpaired high surrogate; positions begin/mid/end; counts 0,1,2" },
     { "string_pool", 6, 8, &PoolSys::make, "XalanDOMStringPool block size 2 over XalanDOMStringHashTable with 2 buckets of initial size 1" },
     { "bitmap", 5, 6, &BitmapSys::make, "XalanBitmap of 10 bits (2 units), bits 0,7,8,9" },
     { "object_cache", 8, 10, &CacheSys::make, "XalanObjectCache<Tracked>, at most 3 objects handed out" },
-    { "set_int", 6, 8, &SetSys::make, "XalanSet<int> x2 over a map rebuilt with minBuckets 2, eraseThreshold 2" },
+    { "set_int", 7, 9, &SetSys::make, "XalanSet<int> x2 over a map rebuilt with minBuckets 2, eraseThreshold 2" },
 };
 
 static void runProbes(std::vector<Viol>& viols, std::map<std::string, long long>& counts)
